@@ -4,6 +4,7 @@ use crate::e1_tx::TxSim;
 use crate::e1_twin::TwinSim;
 use crate::e1_collide::CollideSim;
 use crate::e1_valid::ValidSim;
+use crate::e3_state::StateSim;
 use crate::e2_journal::JournalSim;
 
 fn seed_from_env() -> u64 {
@@ -96,6 +97,16 @@ pub fn check(prop: &str, tier: &str) -> i32 {
             rep.assumptions = vec!["spec changes stay on one side of Spurious Dragon (the state-clear flag of the database layers is the embedder's job)".into(), "C22: histories in which the beneficiary is a party of a transaction are not compared (the twins may legitimately diverge)".into()];
             rep.run_engine(&TwinSim { mode: prop.into() }, scale(tier, 30_000, 1_500_000), &findings);
         }
+        "C15" | "C16" | "C17" | "C18" | "C19" => {
+            rep.rule = "seeded histories of 1-6 transition groups (0-3 real EVM transactions each over a generated world with CREATE2 factories, self-destructs, storage writes, plus increment_balances / drain_balances) committed into a State with bundle tracking over the simulated disk; the scheduler decides merge points (one per group), flush points (take_bundle + changeset applied to the durable disk), crashes (Evm and State dropped, rebuilt over the durable disk, lost groups re-executed), the split point for extend / preloaded bundle and database faults (inside a transaction, inside increment_balances); oracles: reads vs reference plain state after every group and State vs CacheDB results (C15), pre-state + changeset(Yes/No) = post-state (C16), revert walk group by group and bundle.revert(j) for every j (C17), A.extend(B) / take_n_reverts / prepend_state vs the monolithic bundle (C18), State with a preloaded bundle vs State over the merged disk (C19); distinct by the hash of (spec, execution results)".into();
+            rep.real_components = vec![
+                "revm::db::State, CacheState, CacheAccount, TransitionState, TransitionAccount, BundleState, BundleAccount, Reverts, AccountStatus (unmodified)".into(),
+                "revm::Evm producing the committed EvmState of every transaction; CacheDB for the twin".into(),
+            ];
+            rep.stub_components = vec!["SimDisk + FaultyDb (simulated disk, fault injection)".into(), "reference appliers: apply_evm_state, apply_changeset, undo_group (sim/src/disk.rs, sim/src/e3_state.rs)".into()];
+            rep.assumptions = vec!["plain state is compared after normalisation: zero slots dropped; with state clear an empty account without storage equals no account".into(), "State::storage is only called after the account was loaded (documented precondition)".into()];
+            rep.run_engine(&StateSim { focus: prop.into() }, scale(tier, 20_000, 1_000_000), &findings);
+        }
         "C21" => {
             rep.rule = "collision matrix drawn per run: target pre-state {absent, code, nonce, storage only, balance only, nonce+storage} x layer stack {Raw, CacheDB, State, State+bundle, WrapDatabaseRef, WrapDatabaseRef<CacheDB>, CacheDB<CacheDB>, State<CacheDB>, Box<State<Box>>} (+ storage inserted into the CacheDB) x {CREATE, CREATE2, create transaction} x spec x {target touched by an earlier transaction or not} x value; a cell is distinct by (spec, layer, target state, kind, warm-up, value, lazy code)".into();
             rep.real_components = strs(REAL_E1);
@@ -142,6 +153,7 @@ pub fn replay(path: &str) -> i32 {
         "twinsim" => replay_with(&TwinSim { mode: focus }, &rf),
         "validsim" => replay_with(&ValidSim, &rf),
         "collidesim" => replay_with(&CollideSim, &rf),
+        "statesim" => replay_with(&StateSim { focus }, &rf),
         other => Err(format!("unknown engine {other}")),
     };
     match res {
